@@ -156,5 +156,26 @@ package sqlx
 //@   ghost at entry: ran = false
 //@   ghost at after ExecContext#0: ran = true
 //@   ghost at after ExecContext#0: de = ret1
-//@   call return#1: assert ran && implies(de != nil, raw1 == de)
+//@   call returned#1: assert ran && implies(de != nil, arg1 == de)
 //@   modifies heap
+
+// reading a result set: success (nil) is reported only after the row stream's own error was consulted (rows.Err() after the
+// last Next) - a stream that broke off mid-way is a failed query, for slices of basic values as for slices of structs, so the
+// enclosing transaction rolls back instead of committing truncated data
+//@ func unmarshalRows
+//@   property C14
+//@   flag callbacks_noheap
+//@   ghost at entry: ec = false
+//@   ghost at after Err#0: ec = true
+// (every return of unmarshalRows itself; returned#2/#3 are the returns of the local fill closure)
+//@   call returned#0: assert implies(arg0 == nil, ec)
+//@   call returned#1: assert implies(arg0 == nil, ec)
+//@   call returned#4: assert implies(arg0 == nil, ec)
+//@   call returned#5: assert implies(arg0 == nil, ec)
+//@   call returned#6: assert implies(arg0 == nil, ec)
+//@   call returned#7: assert implies(arg0 == nil, ec)
+//@   call returned#8: assert implies(arg0 == nil, ec)
+//@   call returned#9: assert implies(arg0 == nil, ec)
+//@   call returned#10: assert implies(arg0 == nil, ec)
+//@   loop 0: invariant !ec
+//@   loop 1: invariant !ec
